@@ -32,14 +32,32 @@ from .yp_prolog_visitor import *
 from .yp_generator import *
 import contextlib
 import click
-from .errors import CompilerError
+from .errors import CompilerError, SyntaxCompilerError
+from antlr4.error.ErrorListener import ErrorListener
+
+class _RaisingErrorListener(ErrorListener):
+    '''turns every error reported by the lexer or the parser into a CompilerError.'''
+    def __init__(self, filename):
+        self.filename = filename
+    def syntaxError(self, recognizer, offendingSymbol, line, column, msg, e):
+        raise SyntaxCompilerError(self.filename, line, column, msg)
 
 def _compile_prolog_from_stream(inp, ctx):
     '''compiles prolog source from an antlr4 stream.'''
+    filename = getattr(ctx, 'current_source_file', '')
+    listener = _RaisingErrorListener(filename)
     lexer = prologLexer(inp)
+    lexer.removeErrorListeners()
+    lexer.addErrorListener(listener)
     stream = CommonTokenStream(lexer)
     parser = prologParser(stream)
+    parser.removeErrorListeners()
+    parser.addErrorListener(listener)
     tree = parser.program()
+    if stream.LA(1) != Token.EOF:
+        # the grammar's start rule does not end in EOF: the parser stops where it cannot continue
+        token = stream.LT(1)
+        raise SyntaxCompilerError(filename, token.line, token.column, f"unexpected input '{token.text}'")
     visitor = YPPrologVisitor(ctx)
     program = visitor.visit(tree)
     compiler = YPPrologCompiler(ctx)
